@@ -75,10 +75,10 @@ Proof.
   destruct (N.leb_spec (n_term nd) (q_term r)); [|lia]. eexists; reflexivity.
 Qed.
 
-Lemma request_keeps : forall nd r el,
-  cl (n_state (fst (handle_request nd r el))) = true -> fst (handle_request nd r el) = nd.
+Lemma request_keeps : forall rv nd r el,
+  cl (n_state (fst (handle_request rv nd r el))) = true -> fst (handle_request rv nd r el) = nd.
 Proof.
-  intros nd r el. unfold handle_request. destruct (q_kind r) as [logs| | |].
+  intros rv nd r el. unfold handle_request. destruct (q_kind r) as [logs| | |].
   - unfold append_request. destruct (validate_term nd r) eqn:V; cbn [fst]; auto.
     rewrite state_append_logs. destruct (become_follower_state nd r V) as [l E].
     change (n_state (update_node (become_follower nd r) r)) with (n_state (become_follower nd r)).
@@ -115,18 +115,19 @@ Lemma state_commit : forall nd r, n_state (fst (commit nd r)) = n_state nd.
 Proof. intros. unfold commit. destruct (_ && _); reflexivity. Qed.
 
 (* the three ways a response can leave a node in Candidate state *)
-Lemma response_candidate : forall nd r s,
-  is_candidate (n_state (fst (handle_response nd r s))) = true ->
-  fst (handle_response nd r s) = nd \/
-  (n_state nd = Candidate /\ q_kind r = KVote /\ s_result s = ROk /\
-   fst (handle_response nd r s) = upd_peer nd (q_to r) (p_set_voted true)) \/
-  (n_state nd = Election /\ fst (handle_response nd r s) = fst (election (upd_peer nd (q_to r) (p_set_voted true)))).
+Lemma response_candidate : forall rv nd r s,
+  is_candidate (n_state (fst (handle_response rv nd r s))) = true ->
+  fst (handle_response rv nd r s) = nd \/
+  (n_state nd = Candidate /\ q_kind r = KVote /\ s_result s = ROk /\ vote_counts rv nd r = true /\
+   fst (handle_response rv nd r s) = upd_peer nd (q_to r) (p_set_voted true)) \/
+  (n_state nd = Election /\ fst (handle_response rv nd r s) = fst (election (upd_peer nd (q_to r) (p_set_voted true)))).
 Proof.
-  intros nd r s. unfold handle_response.
+  intros rv nd r s. unfold handle_response.
   destruct (n_state nd) eqn:S; destruct (q_kind r) eqn:K; destruct (s_result s) eqn:R; cbn [fst]; auto;
     try (rewrite state_commit, S; discriminate);
     try (match goal with |- context [if n_term nd <? ?l then _ else _] => destruct (n_term nd <? l) end; cbn [fst]; auto; discriminate).
   - (* Candidate, Vote, Ok *)
+    destruct (vote_counts rv nd r) eqn:VC; cbn [fst]; auto.
     unfold vote_received. destruct (_ <? _); cbn [fst]; [discriminate|]. intros _. right; left. auto.
   - (* Election, PreVote, Ok *)
     unfold pre_vote_received. destruct (_ <? _); cbn [fst].
@@ -135,19 +136,20 @@ Proof.
 Qed.
 
 (* the only way a response makes a node Leader *)
-Lemma response_leader : forall nd r s,
-  is_leader (n_state (fst (handle_response nd r s))) = true -> is_leader (n_state nd) = false ->
-  n_state nd = Candidate /\ q_kind r = KVote /\ s_result s = ROk /\
+Lemma response_leader : forall rv nd r s,
+  is_leader (n_state (fst (handle_response rv nd r s))) = true -> is_leader (n_state nd) = false ->
+  n_state nd = Candidate /\ q_kind r = KVote /\ s_result s = ROk /\ vote_counts rv nd r = true /\
   n_size nd / 2 < votes (upd_peer nd (q_to r) (p_set_voted true)) /\
-  n_term (fst (handle_response nd r s)) = q_term r.
+  n_term (fst (handle_response rv nd r s)) = q_term r.
 Proof.
-  intros nd r s. unfold handle_response.
+  intros rv nd r s. unfold handle_response.
   destruct (n_state nd) eqn:S; destruct (q_kind r) eqn:K; destruct (s_result s) eqn:R; cbn [fst];
     try (intros H; rewrite S in H; discriminate H);
     try (intros _ H; discriminate H);
     try (match goal with |- context [if n_term nd <? ?l then _ else _] => destruct (n_term nd <? l) end; cbn [fst];
          intros H; try rewrite S in H; discriminate H).
-  - unfold vote_received.
+  - destruct (vote_counts rv nd r) eqn:VC; cbn [fst]; [|intros H; rewrite S in H; discriminate H].
+    unfold vote_received.
     change (n_size (upd_peer nd (q_to r) (p_set_voted true))) with (n_size nd).
     destruct (N.ltb_spec (n_size nd / 2) (votes (upd_peer nd (q_to r) (p_set_voted true)))); cbn [fst].
     + intros _ _. repeat split; auto.
@@ -211,7 +213,7 @@ Proof.
   destruct (get_node c (q_from r)); auto; destruct (entries_eqb _ _); auto.
 Qed.
 
-Lemma leaders_response_ghosts : forall old r s, leaders (response_ghosts old r s) = [].
+Lemma leaders_response_ghosts : forall rv old r s, leaders (response_ghosts rv old r s) = [].
 Proof. intros. unfold response_ghosts. destruct (_ && _); reflexivity. Qed.
 
 Lemma supports_request_vote : forall c new r s,
@@ -346,19 +348,24 @@ Proof.
     rewrite nth_upd_nth_neq in Hk by auto. exact Hk.
 Qed.
 
-Lemma no_stale_response : forall h nd r s g,
-  stale_vote_b (h ++ response_ghosts nd r s ++ g) = false ->
-  n_state nd = Candidate -> q_kind r = KVote -> s_result s = ROk -> q_term r = n_term nd.
+(* a counted Vote/Ok answers a request of the candidate's own term: by the guard of `response()` in the repaired
+   revision, by the absence of the `stale_vote_b` class otherwise *)
+Lemma no_stale_response : forall rv h nd r s g,
+  fix_vote_match rv = true \/ stale_vote_b (h ++ response_ghosts rv nd r s ++ g) = false ->
+  n_state nd = Candidate -> q_kind r = KVote -> s_result s = ROk -> vote_counts rv nd r = true ->
+  q_term r = n_term nd.
 Proof.
-  intros h nd r s g H S K R. rewrite !stale_app in H.
-  apply orb_false_iff in H as [_ H]. apply orb_false_iff in H as [H _].
-  unfold response_ghosts in H. rewrite S, K, R in H. cbn in H.
-  destruct (N.eqb_spec (q_term r) (n_term nd)); auto. cbn in H. discriminate.
+  intros rv h nd r s g [F|H] S K R VC.
+  - unfold vote_counts in VC. rewrite F in VC. cbn in VC. apply N.eqb_eq. exact VC.
+  - rewrite !stale_app in H.
+    apply orb_false_iff in H as [_ H]. apply orb_false_iff in H as [H _].
+    unfold response_ghosts in H. rewrite S, K, R, VC in H. cbn in H.
+    destruct (N.eqb_spec (q_term r) (n_term nd)); auto. cbn in H. discriminate.
 Qed.
 
-Lemma step_hist : forall c e, exists g, c_hist (step c e) = c_hist c ++ g.
+Lemma step_hist : forall rv c e, exists g, c_hist (step rv c e) = c_hist c ++ g.
 Proof.
-  intros c e. destruct e as [i el due | k el | k | k | i d]; cbn [step].
+  intros rv c e. destruct e as [i el due | k el | k | k | i d]; cbn [step].
   - destruct (get_node c i); [|exists []; rewrite app_nil_r; auto].
     destruct (process _ _ _). eexists; reflexivity.
   - destruct (nth_error (c_net c) k) as [[r|r s]|]; [| |exists []; rewrite app_nil_r; auto].
@@ -391,11 +398,11 @@ Proof.
   apply in_map_iff in Hm as [q [<- _]]. exact I.
 Qed.
 
-Theorem J_step : forall sz c e,
-  J sz c -> stale_vote_b (c_hist (step c e)) = false -> J sz (step c e).
+Theorem J_step : forall rv sz c e,
+  J sz c -> fix_vote_match rv = true \/ stale_vote_b (c_hist (step rv c e)) = false -> J sz (step rv c e).
 Proof.
-  intros sz c e Jc NS.
-  pose proof (proj1 (step_inv c e (j_cinv _ _ Jc))) as CI.
+  intros rv sz c e Jc NS.
+  pose proof (proj1 (step_inv rv c e (j_cinv _ _ Jc))) as CI.
   destruct (j_cinv _ _ Jc) as [HN HM].
   destruct e as [i el due | k el | k | k | i d]; cbn [step] in *.
   - (* Tick *)
@@ -420,9 +427,9 @@ Proof.
       2:{ eapply J_same_hist; eauto. cbn. intros m Hm. eapply In_remove_nth; eauto. }
       pose proof (get_node_index _ _ _ HN G) as Ei.
       assert (Hne : q_from r <> n_index nd) by congruence.
-      pose proof (good_request nd r el (proj1 (HN _ _ G)) Hne) as [_ St].
-      pose proof (request_keeps nd r el) as Kp.
-      destruct (handle_request nd r el) as [nd' s]. cbn [fst snd] in *.
+      pose proof (good_request rv nd r el (proj1 (HN _ _ G)) Hne) as [_ St].
+      pose proof (request_keeps rv nd r el) as Kp.
+      destruct (handle_request rv nd r el) as [nd' s]. cbn [fst snd] in *.
       set (g := request_ghosts c nd' r s ++ node_ghosts nd nd') in *.
       assert (Cd : cand_ok (c_hist c ++ g) nd').
       { intros S. assert (E : nd' = nd) by (apply Kp; rewrite S; reflexivity). subst nd'.
@@ -444,21 +451,21 @@ Proof.
       2:{ eapply J_same_hist; eauto. cbn. intros m Hm. eapply In_remove_nth; eauto. }
       pose proof (get_node_index _ _ _ HN G) as Ei.
       assert (Hne : q_to r <> n_index nd) by congruence.
-      pose proof (good_response nd r s (proj1 (HN _ _ G)) Hne) as [_ St].
-      pose proof (response_candidate nd r s) as RC.
-      pose proof (response_leader nd r s) as RL.
-      destruct (handle_response nd r s) as [nd' reqs]. cbn [fst snd] in *.
-      set (g := response_ghosts nd r s ++ node_ghosts nd nd') in *.
+      pose proof (good_response rv nd r s (proj1 (HN _ _ G)) Hne) as [_ St].
+      pose proof (response_candidate rv nd r s) as RC.
+      pose proof (response_leader rv nd r s) as RL.
+      destruct (handle_response rv nd r s) as [nd' reqs]. cbn [fst snd] in *.
+      set (g := response_ghosts rv nd r s ++ node_ghosts nd nd') in *.
       pose proof (j_cand _ _ Jc nd (nth_error_In _ _ G)) as Cold.
       pose proof (j_resp _ _ Jc _ (nth_error_In _ _ Hk)) as Rold. cbn in Rold.
-      assert (Sup : n_state nd = Candidate -> q_kind r = KVote -> s_result s = ROk ->
+      assert (Sup : n_state nd = Candidate -> q_kind r = KVote -> s_result s = ROk -> vote_counts rv nd r = true ->
                     q_term r = n_term nd /\ In (q_to r, n_term nd, n_index nd) (supports (c_hist c))).
-      { intros S K R. assert (T : q_term r = n_term nd) by (eapply no_stale_response; eauto).
+      { intros S K R VC. assert (T : q_term r = n_term nd) by (eapply no_stale_response; eauto).
         split; auto. rewrite <- T. replace (n_index nd) with (q_from r) by congruence. auto. }
       assert (Cd : cand_ok (c_hist c ++ g) nd').
-      { intros S. destruct (RC ltac:(rewrite S; reflexivity)) as [E|[(S0 & K & R & E)|(S0 & E)]].
+      { intros S. destruct (RC ltac:(rewrite S; reflexivity)) as [E|[(S0 & K & R & VC & E)|(S0 & E)]].
         - subst nd'. apply cand_ok_mono; auto.
-        - destruct (Sup S0 K R) as [T Hs]. subst nd'. cbn [n_index n_term upd_peer set_peers].
+        - destruct (Sup S0 K R VC) as [T Hs]. subst nd'. cbn [n_index n_term upd_peer set_peers].
           destruct (Cold S0) as [C1 _]. split; [apply supports_mono; auto|].
           intros j Hj _. apply supports_mono. eapply nd1_support; eauto.
         - split.
@@ -474,8 +481,8 @@ Proof.
         2:{ apply leader_ok_mono; [|apply (j_lead _ _ Jc)]. unfold g.
             rewrite leaders_app, leaders_response_ghosts, leaders_node_ghosts, NL. reflexivity. }
         apply andb_true_iff in NL as [L1 L2]. apply negb_true_iff in L2.
-        destruct (RL L1 L2) as (S0 & K & R & Q & T').
-        destruct (Sup S0 K R) as [T Hs].
+        destruct (RL L1 L2) as (S0 & K & R & VC & Q & T').
+        destruct (Sup S0 K R VC) as [T Hs].
         intros i0 t0 Hin. unfold g in Hin.
         rewrite !leaders_app, leaders_response_ghosts, leaders_node_ghosts, L1, L2 in Hin. cbn in Hin.
         apply in_app_or in Hin as [Hin|[Hin|[]]].
@@ -514,20 +521,21 @@ Proof.
       cbn. reflexivity.
 Qed.
 
-Lemma run_hist : forall evs c, exists g, c_hist (run_from c evs) = c_hist c ++ g.
+Lemma run_hist : forall rv evs c, exists g, c_hist (run_from rv c evs) = c_hist c ++ g.
 Proof.
-  induction evs as [|e evs IH]; intros c; cbn [run_from fold_left].
+  intros rv. induction evs as [|e evs IH]; intros c; cbn [run_from fold_left].
   - exists []. rewrite app_nil_r. reflexivity.
-  - destruct (IH (step c e)) as [g2 E2]. destruct (step_hist c e) as [g1 E1].
+  - destruct (IH (step rv c e)) as [g2 E2]. destruct (step_hist rv c e) as [g1 E1].
     exists (g1 ++ g2). unfold run_from in E2. rewrite E2, E1, app_assoc. reflexivity.
 Qed.
 
-Lemma run_J : forall evs sz c,
-  J sz c -> stale_vote_b (c_hist (run_from c evs)) = false -> J sz (run_from c evs).
+Lemma run_J : forall rv evs sz c,
+  J sz c -> fix_vote_match rv = true \/ stale_vote_b (c_hist (run_from rv c evs)) = false -> J sz (run_from rv c evs).
 Proof.
-  induction evs as [|e evs IH]; intros sz c Jc NS; cbn [run_from fold_left] in *; auto.
+  intros rv. induction evs as [|e evs IH]; intros sz c Jc NS; cbn [run_from fold_left] in *; auto.
   apply IH; auto. apply J_step; auto.
-  destruct (run_hist evs (step c e)) as [g E]. unfold run_from in E. rewrite E, stale_app in NS.
+  destruct NS as [F|NS]; [left; exact F|right].
+  destruct (run_hist rv evs (step rv c e)) as [g E]. unfold run_from in E. rewrite E, stale_app in NS.
   apply orb_false_iff in NS as [NS _]. exact NS.
 Qed.
 
@@ -547,15 +555,15 @@ Qed.
 (* C27, conditional form: a history in which no node supports two candidates in one term and no candidate
    counts a vote of another term has at most one leader per term — for every cluster size (other than the
    degenerate 1) and every adversarial event list *)
-Theorem election_safety_partial : forall size evs,
+Theorem election_safety_cond : forall rv size evs,
   size <> 1 ->
-  double_vote_b (c_hist (run size evs)) = false ->
-  stale_vote_b (c_hist (run size evs)) = false ->
-  election_safety (c_hist (run size evs)).
+  double_vote_b (c_hist (run rv size evs)) = false ->
+  fix_vote_match rv = true \/ stale_vote_b (c_hist (run rv size evs)) = false ->
+  election_safety (c_hist (run rv size evs)).
 Proof.
-  intros size evs Hs DV SV. unfold run in *.
-  pose proof (run_J evs size _ (init_J size Hs) SV) as Jr.
-  set (h := c_hist (run_from (init_default size) evs)) in *.
+  intros rv size evs Hs DV SV. unfold run in *.
+  pose proof (run_J rv evs size _ (init_J size Hs) SV) as Jr.
+  set (h := c_hist (run_from rv (init_default size) evs)) in *.
   intros i j t Hi Hj.
   destruct (j_lead _ _ Jr _ _ Hi) as [Vi [Ni [Si Qi]]].
   destruct (j_lead _ _ Jr _ _ Hj) as [Vj [Nj [Sj Qj]]].
@@ -570,8 +578,15 @@ Proof.
   congruence.
 Qed.
 
-(* the hypotheses are satisfiable by a run that elects leaders in two different terms *)
-Lemma election_partial_example :
-  let h := c_hist (run w29_old_term_commit_n w29_old_term_commit) in
+Theorem election_safety_partial : forall rv size evs,
+  size <> 1 ->
+  double_vote_b (c_hist (run rv size evs)) = false ->
+  stale_vote_b (c_hist (run rv size evs)) = false ->
+  election_safety (c_hist (run rv size evs)).
+Proof. intros rv size evs Hs DV SV. apply election_safety_cond; auto. Qed.
+
+(* the hypotheses are satisfiable by a run that elects leaders in four different terms (every revision) *)
+Lemma election_partial_example : forall rv,
+  let h := c_hist (run rv w29_old_term_commit_n w29_old_term_commit) in
   double_vote_b h = false /\ stale_vote_b h = false /\ leaders h = [(0, 1); (2, 2); (0, 3); (2, 4)].
-Proof. vm_compute. auto. Qed.
+Proof. intros [[|] [|]]; vm_compute; auto. Qed.
